@@ -172,6 +172,26 @@ Definition rex_mut_req (setspace x : list Z) (u : list Q) (p : Q) : nat * nat * 
   let mba := map (fun e => negb (memZ e x)) setspace in
   (length (compress mab x), length (compress mba setspace), length (filter (fun b => b) (mex_of u p))).
 
+(** MutatorA / MutatorB .hillclimb (used by NSGA2MutatorA/BSubsetGeneticAlgorithm):
+      alleles = setspace[~in1d(setspace, x)];  Xhc[:,:] = x;  Xhc[:,lociix] = alleles[alleleix]
+    The assignment addresses whole COLUMNS, so every row of Xhc receives all nhcstep replacements (a repeated
+    column index keeps the last value) and all rows are equal; whichever row the non-dominated selection
+    picks, the returned chromosome is this row. [lociix]/[alleleix] are the tiled_choice draws. *)
+Definition mutAB_row (x alleles : list Z) (lociix alleleix : list nat) : list Z :=
+  fold_left (fun row la => set_nth (fst la) row (nth (snd la) alleles 0)) (combine lociix alleleix) x.
+Definition mutAB_hillclimb (setspace x : list Z) (lociix alleleix : list nat) : list Z :=
+  mutAB_row x (complement setspace x) lociix alleleix.
+(** tiled_choice(a, size): size // a permutations of range(a) followed by size % a distinct values *)
+Fixpoint chunks (a : nat) (fuel : nat) (l : list nat) : list (list nat) :=
+  match fuel with
+  | O => []
+  | S f => match l with [] => [] | _ => firstn a l :: chunks a f (skipn a l) end
+  end.
+Fixpoint nodupn (l : list nat) : bool :=
+  match l with [] => true | x :: t => negb (existsb (Nat.eqb x) t) && nodupn t end.
+Definition tiled_ok (a size : nat) (l : list nat) : bool :=
+  Nat.eqb (length l) size && forallb (fun i => (i <? a)%nat) l && forallb nodupn (chunks a size l).
+
 (** Integer{SimulatedBinaryCrossover,PolynomialMutation}: out.round(0).astype(X.dtype) — numpy rounds
     half to even *)
 Definition rhe (q : Q) : Z :=
